@@ -393,7 +393,11 @@ def inExtrasOf (groups : List (List (String × String))) : List String :=
 def Dep.setMarker (d : Dep) (m : M) : PyM Dep := do
   let ex ← convertMarkersFor "extra" m
   let d1 : Dep := match ex with
-    | some groups => { d with marker := m, optional := true, activated := false, inExtras := d.inExtras ++ inExtrasOf groups }
+    | some groups =>
+      -- `if new_in_extras: self.deactivate()` (poetry-core ad4e259: a marker that only EXCLUDES extras leaves the
+      -- dependency mandatory); `_in_extras = [*_in_extras, *new_in_extras]`
+      if (inExtrasOf groups).isEmpty then { d with marker := m, inExtras := d.inExtras ++ inExtrasOf groups }
+      else { d with marker := m, optional := true, activated := false, inExtras := d.inExtras ++ inExtrasOf groups }
     | none => { d with marker := m }
   let py ← convertMarkersFor "python_version" m
   let pv ← (match py with
